@@ -125,6 +125,12 @@ def run(ck):
                  "modulo is stored and before super().__init__; _mod is written only there",
                  'M0', 3)
 
+    R5 = ck.rule('R20.5', "every event returns the updated output also through the add-on wrappers of "
+                 "event(): each returns the result of super().event() on every normal exit", 'M0', 1)
+    with ck.section('R20.5'):
+        from rules.shared import event_result_passed_on
+        event_result_passed_on(ck, R5, 'blocklib.sblocks1:Counter')
+
     with ck.section('R20.1'):
         # ---- R20.1: reducing setters
         reducing = {}       # method name -> FuncInfo
